@@ -70,6 +70,12 @@ def gen_connect_bad(rng, t):
         # device-id answers with a correct check byte but no / one payload byte
         for short in (frame(1, []), frame(1, [dev & 0xFF]), frame(1, [0x00])):
             out.append(ACase("connect-malformed-id", ["connect"], [[ev_data(ping_resp())], [ev_data(short)]], {"dev": dev, "mode": "malformed-id"}))
+        # text-protocol output (no ':') of any length in front of the answers is skipped: a BMV mid-way through its
+        # text blocks when the command arrives
+        for nlen in (100, 255, 256, 257, 300, 1000, 4000, 4096, 5000):
+            nz = bytes(c for c in noise(rng, nlen) if c != 0x3A).ljust(nlen, b"x")
+            out.append(ACase("connect-noise", ["connect"], [[ev_data(nz + ping_resp())], [ev_data(d)]], {"dev": dev, "mode": "answers"}))
+            out.append(ACase("connect-noise", ["connect"], [[ev_data(ping_resp())], [ev_data(nz + d)]], {"dev": dev, "mode": "answers"}))
         # a leading async frame before the answers is fine
         out.append(ACase("connect-async", ["connect"], [[ev_data(async_frame(rng) + ping_resp())], [ev_data(async_frame(rng) + d)]], {"dev": dev, "mode": "answers"}))
     return out
